@@ -9,7 +9,7 @@ import z3
 
 from mirsym import build, interp, mirparse, par, report, srcinfo
 from mirsym import unicode as U
-from mirsym import models, models2, models3, models4          # noqa: registers the std models, in this order
+from mirsym import models, models2, models3, models4, models_syn   # noqa: registers the std models, in this order
 from mirsym.interp import (Explorer, Machine, RStr, Enum, Struct, Ref, ValRef, Lazy, Panic, Infeasible, is_sym, bv, CH)
 from mirsym.mirparse import Unsupported
 from mirsym.models import MODELS
